@@ -20,6 +20,8 @@ PAIRS: List[tuple] = [
     ("$.a.~", None, "keys-a", "nest1", {}), ("$..~", None, "keys-desc", "deep", {}), ("$..~", None, "keys-desc", "nest2", {}), ("$.~", None, "keys-root", "numkeys", {}),
     # fake root
     ("^[?@.a == 1]", "$[?@.a == 1]", None, "obj2", {"wrap": True}), ("^[?@[0].a]", "$[?@[0].a]", None, "objarr", {"wrap": True}), ("^[0]", "$[0]", None, "obj2", {"wrap": True}),
+    ("$.a | ^[?@.a == 1]", None, [["$.a", False], ["$[?@.a == 1]", True]], "obj2", {}), ("^[?@.a == 1] | $.a | ^.*", None, [["$[?@.a == 1]", True], ["$.a", False], ["$.*", True]], "obj2", {}),
+    ("$[0] | ^[?@[0].a] | $[1]", None, [["$[0]", False], ["$[?@[0].a]", True], ["$[1]", False]], "objarr", {}),
     ("^.*", "$.*", None, "arr", {"wrap": True}), ("^[?@.a == $.a]", "$[?@.a == $[0].a]", None, "obj2", {"wrap": True}),
     # current key
     ("$[?# == 'a']", None, "key-eq-a", "obj2", {}), ("$[?# > 0]", None, "key-gt-0", "arr", {}), ("$[?# in ['a', 'zz', 0, 2]]", None, "key-in-list", "obj2", {}),
